@@ -76,3 +76,13 @@ def run(cx):
     _run_kdf(cx)
     # the key of the requested length is the counter-mode KDF of GM/T 0044
     check_kdf(cx, 'gm_sm9::key::kdf', 'F-SM9-KDF')
+
+
+_run_pow2 = run
+
+
+def run(cx):
+    from .. import rules_s as S
+    _run_pow2(cx)
+    # g^r / g^h: the GT exponentiation is a complete square-and-multiply over the four limbs of the exponent
+    S.square_multiply(cx, 'I-POW', '<impl fields::fp12::Fp12>::pow')
